@@ -68,7 +68,7 @@ func gen(rng *rand.Rand, w *vh.World, repo string, n int) tcase {
 		return tc // plain push (valid or with missing references, depending on the repository state)
 	}
 	// a mutation on top
-	switch k := rng.Intn(12); k {
+	switch k := rng.Intn(13); k {
 	case 0: // truncated body, addressed by tag or by the digest of the truncated bytes
 		cut := 1 + rng.Intn(len(mm.Raw)-1)
 		tc.body = mm.Raw[:cut]
@@ -160,6 +160,14 @@ func gen(rng *rand.Rand, w *vh.World, repo string, n int) tcase {
 			tc.ref = vh.DigestOf("sha256", b)
 		}
 		tc.query = ""
+	case 12: // a complete manifest followed by more bytes: the body as a whole does not parse
+		tail := []string{"garbage", "{}", "\n]", " x", "\x00", "}"}[rng.Intn(6)]
+		tc.body = append(append([]byte{}, mm.Raw...), []byte(tail)...)
+		tc.class, tc.must = "trailing-bytes", -1
+		if tc.tag == "" {
+			tc.ref = vh.DigestOf("sha256", tc.body)
+		}
+		tc.query = ""
 	case 11: // config missing: point config at an absent digest
 		if mm.Index {
 			return tc
@@ -229,6 +237,26 @@ func runHistory(r *vh.Run, i int) {
 	for op := 0; op < n && !bad; op++ {
 		if rng.Intn(8) == 0 {
 			w.PushBlob("r", u.Blobs[rng.Intn(len(u.Blobs))])
+			continue
+		}
+		if rng.Intn(10) == 0 {
+			// remove referenced content through the blob API: a later push of the very same manifest is incomplete again
+			mr := w.Repos["r"]
+			var cands []string
+			for d := range mr.Stored {
+				if mr.Mans[d] == nil {
+					cands = append(cands, d)
+				}
+			}
+			if len(cands) > 0 {
+				sort.Strings(cands)
+				d := cands[rng.Intn(len(cands))]
+				if rs, exp := w.DeleteBlob("r", d, w.NameOf(d)); rs.Status != exp {
+					r.Count("foreign_blob_delete_status", 1)
+					return
+				}
+				r.Count("blob_deletes", 1)
+			}
 			continue
 		}
 		tc := gen(rng, w, "r", op)
